@@ -20,7 +20,8 @@ func c15RunCase(c *Ctx, raw []byte) string {
 	return c15Exec(c, cs)
 }
 
-func c15Exec(c *Ctx, cs docCase) string {
+func c15Exec(c *Ctx, cs docCase) (outcome string) {
+	defer c.guardCase("pointer-lookup", cs, &outcome)
 	typed := newTarget(cs.Target)
 	if err := json.Unmarshal(cs.Doc, typed); err != nil {
 		return "decode-error"
